@@ -174,6 +174,9 @@ class C05(core.Prop):
         'dyadic values, ties included, for precisions 0..3 (where binary floating point is exact)',
     ]
 
+    def revive(self, case):
+        return cx.revive(case)
+
     def corpus(self):
         return [{'kind': 'types', 'a': a, 'b': b, 'level': lv} for a in DTYPE_NAMES for b in DTYPE_NAMES for lv in LEVELS[1:]]
 
